@@ -64,6 +64,13 @@ Unseeded(k, e) ==
                   ELSE <<>>
     /\ UNCHANGED <<fresh, digests, covered, ops>>
 
+(* ---- C08 with re-configuration between calls: each call depends on the configuration in force when it is made ---- *)
+Reconf(k, e) ==
+    /\ msgs' = LET bad == {j \in 1..Len(e.got) : e.got[j] # e.want[j]} IN
+               IF bad # {} THEN <<V(k, "C08", <<"after re-configuration a reused generator differs from a fresh one with the same configuration at generation", CHOOSE j \in bad : \A x \in bad : j <= x, "of", e.steps>>)>>
+               ELSE <<>>
+    /\ UNCHANGED <<fresh, digests, covered, ops>>
+
 (* ---- C07: the result is a function of (configuration, entropy input) only ---- *)
 Det(k, e) ==
     /\ digests' = IF e.job \in DOMAIN digests THEN digests ELSE Put(digests, e.job, <<e.digest, e.len, e.ctx>>)
@@ -125,6 +132,12 @@ Leak(k, e) ==
 
 (* ---- C13: the front end produces the library's bytes for the configuration that
    its options denote according to the Frontend specification ---- *)
+FrameSpansRest(b) ==
+    IF Len(b) >= 11 /\ b[1] = 128 /\ b[3] = 149
+    THEN /\ b[4] + 256 * b[5] + 65536 * b[6] + 16777216 * (b[7] % 128) = Len(b) - 11
+         /\ b[7] < 128 /\ b[8] = 0 /\ b[9] = 0 /\ b[10] = 0 /\ b[11] = 0
+    ELSE TRUE
+
 Front(k, e) ==
     /\ ops' = IF "gotb" \in DOMAIN e THEN OpsFrom(e.gotb, 1, {}) ELSE {}
     /\ msgs' = (IF e.kind = "cli" /\ e.libcfg # CliConfig(e.opts)
@@ -134,6 +147,9 @@ Front(k, e) ==
             \o (IF e.exit # e.want_exit THEN <<V(k, "C13", <<"exit status", e.exit, "expected", e.want_exit, e.what>>)>> ELSE <<>>)
             \o (IF e.files # e.want_files THEN <<V(k, "C13", <<"files written differ from 0.pkl..N-1.pkl", e.what>>)>> ELSE <<>>)
             \o (IF e.got # e.lib THEN <<V(k, "C13", <<"front-end bytes differ from library bytes", e.what>>)>> ELSE <<>>)
+            \* C06 at the front ends: the file a front end wrote is the pickle, so its FRAME must span exactly the rest of the FILE
+            \o (IF "gotb" \in DOMAIN e /\ ~FrameSpansRest(e.gotb)
+                THEN <<V(k, "C06", <<"front-end output: FRAME length differs from the number of bytes that follow in the file", e.what>>)>> ELSE <<>>)
             \* C10 at the front ends: the opcodes of the bytes the front end wrote, against the flags its options denote
             \o (IF ops' \cap ExtOps # {} /\ e.libcfg.ext = 0
                 THEN <<V(k, "C10", <<"EXT opcode in front-end output although the options do not enable it", e.what>>)>> ELSE <<>>)
@@ -149,6 +165,7 @@ Step ==
           /\ CASE e.t = "fresh" -> Fresh(k, e)
                [] e.t = "seq" -> SeqLine(k, e)
                [] e.t = "unseeded" -> Unseeded(k, e)
+               [] e.t = "reconf" -> Reconf(k, e)
                [] e.t = "det" -> Det(k, e)
                [] e.t = "total" -> Total(k, e)
                [] e.t = "vocab" -> Vocab(k, e)
